@@ -367,6 +367,7 @@ struct World
     using string = std::basic_string<Ch>;
     using vec3 = fcppt::math::vector::static_<int, 3>;
     using dim2 = fcppt::math::dim::static_<long, 2>;
+    using vec4 = fcppt::math::vector::static_<short, 4>;
     sim::Rng r(op.getu("vs"));
     unsigned const n = static_cast<unsigned>(op.getu("n") % 8);
     struct Item
@@ -375,6 +376,7 @@ struct World
       vec3 v;
       dim2 d;
       color c;
+      vec4 w;
     };
     std::vector<Item> items;
     auto num = [&]() -> long {
@@ -388,7 +390,10 @@ struct World
       }
     };
     for (unsigned k = 0; k < n; ++k)
-      items.push_back(Item{static_cast<unsigned>(r.below(3)), vec3(static_cast<int>(num()), static_cast<int>(num()), static_cast<int>(num())), dim2(num(), num()), static_cast<color>(r.below(5))});
+    {
+      auto sh = [&]() -> short { return static_cast<short>(r.below(5) == 0 ? (r.below(2) == 0 ? 32767 : -32768) : static_cast<long>(r.below(2001)) - 1000); };
+      items.push_back(Item{static_cast<unsigned>(r.below(4)), vec3(static_cast<int>(num()), static_cast<int>(num()), static_cast<int>(num())), dim2(num(), num()), static_cast<color>(r.below(5)), vec4(sh(), sh(), sh(), sh())});
+    }
     sim::StreamBuf<Ch> wb;
     long const accept = op.get("accept", -1);
     if (accept >= 0)
@@ -405,6 +410,8 @@ struct World
           os << it.v;
         else if (it.kind == 1)
           os << it.d;
+        else if (it.kind == 3)
+          os << it.w;
         else
           os << it.c;
         if (!os.good())
@@ -432,7 +439,7 @@ struct World
     unsigned good = 0;
     for (std::size_t k = 0; k < items.size(); ++k)
     {
-      Item got{items[k].kind, vec3(0, 0, 0), dim2(0, 0), color::x};
+      Item got{items[k].kind, vec3(0, 0, 0), dim2(0, 0), color::x, vec4(0, 0, 0, 0)};
       bool ok = false;
       {
         sim::fault::Sut s;
@@ -440,6 +447,8 @@ struct World
           is >> got.v;
         else if (items[k].kind == 1)
           is >> got.d;
+        else if (items[k].kind == 3)
+          is >> got.w;
         else
           is >> got.c;
         ok = !is.fail();
@@ -454,7 +463,7 @@ struct World
         SIM_CHECK(!failed_once, "read-after-failure", "text item " + std::to_string(k) + " read after an earlier failure");
         SIM_CHECK(!rb.threw(), "value-after-read-error", "text");
         SIM_CHECK(whole, "torn-value-accepted", "text item " + std::to_string(k) + " (kind " + std::to_string(items[k].kind) + ") is torn at byte " + std::to_string(visible) + " but was read as a value");
-        bool const same = items[k].kind == 0 ? got.v == items[k].v : items[k].kind == 1 ? got.d == items[k].d : got.c == items[k].c;
+        bool const same = items[k].kind == 0 ? got.v == items[k].v : items[k].kind == 1 ? got.d == items[k].d : items[k].kind == 3 ? got.w == items[k].w : got.c == items[k].c;
         SIM_CHECK(same, "roundtrip", "text item " + std::to_string(k) + " kind " + std::to_string(items[k].kind) + " read back differently");
         ++good;
       }
